@@ -41,6 +41,10 @@ func (p *BaseFailurePolicy[R]) HandleErrorTypes(errs ...any) {
 
 func (p *BaseFailurePolicy[R]) HandleResult(result R) {
 	p.failureConditions = append(p.failureConditions, func(r R, err error) bool {
+		if err != nil {
+			// Only considered when a result is returned from an execution, not when an error is returned
+			return false
+		}
 		return reflect.DeepEqual(r, result)
 	})
 }
